@@ -26,7 +26,54 @@ def is_coupling(k, num):
     return {r % 3, c % 3} in ({0, 2}, {1, 2})
 
 
+def build_blade(cfg, values=None):
+    """mass of the flange of a BladeStiff1D: beam of section bf (along z) x hf on the line y = ys, on the negative-z side of the
+    skin, centroid at distance df = bf/2 + hb + h/2 from the skin mid-plane"""
+    from . import c13
+    from ..oracles import penalty as PEN
+    from ..panelsym import series_of
+    ctx = PanelCtx(values=values, seed=cfg.get('seed', 0))
+    obs = []
+    with ctx.shadow(extra_stubs=c13.stiff_stubs(ctx), policy=c13.BayPolicy()):
+        bay, comps = c13.make_bay(ctx, dict(cfg, stiffeners=[('B1', {'base': False})]))
+        bay._rebuild()
+        s = comps[0][1]
+        size = bay.get_size()
+        s.calc_kM(size=size, row0=0, col0=0, silent=True, finalize=True)
+        K = s.kM.todict()
+        h = sum(bay.panels[0].plyts)
+        hb = Sym.lift(0)
+        bf, hf, mu = s.bf, s.hf, s.mu
+        e = -(bf / 2 + hb + h / 2)                 # centroid position (flange below the skin)
+        zb = h / 2 + hb
+        I2 = ((zb + bf) ** 3 - zb ** 3) / 3         # int z^2 dz over the flange height
+        mh = mu * hf
+        one = Sym.lift(1)
+        terms = [(mh * bf, [(1, 'u', 0, 0, one), (1, 'w', 1, 0, -e)]), (mh * (I2 - bf * e * e), [(1, 'w', 1, 0, one)]),
+                 (mh * bf, [(1, 'v', 0, 0, one), (1, 'w', 0, 1, -e)]), (mh * (I2 - bf * e * e), [(1, 'w', 0, 1, one)]),
+                 (mh * bf, [(1, 'w', 0, 0, one)])]
+        S = {1: series_of(bay.panels[0], 'plate')}
+        S[1].b = bay.b
+        eta_s = 2 * s.ys / bay.b - 1
+        H = PEN.hessian(ctx.atoms, 'x-line', terms, S, {1: eta_s}, bay.a, bay.b)
+        Hd = {}
+        for ((pa, da), (pb, db)), v in H.items():
+            Hd[(da, db)] = Hd[(da, db)] + v if (da, db) in Hd else v
+        for k in sorted(set(Hd) | set(K)):
+            coupling = is_coupling(k, 3)
+            if coupling:
+                obs.append(('blade-kM-coupling[%d,%d]' % k, K.get(k, 0), Hd.get(k, 0)))
+                # recorded finding: the coupling terms of fkMf are twice the kinetic-energy value
+                obs.append(('blade-kM-coupling~known[%d,%d]' % k, K.get(k, 0), 2 * Hd.get(k, 0)))
+            else:
+                obs.append(('blade-kM[%d,%d]' % k, K.get(k, 0), Hd.get(k, 0)))
+    info = {'values': {k: str(v) for k, v in ctx.used_values.items()}, 'stats': {k: v.stats.as_dict() for k, v in ctx.kernels.mods.items()}}
+    return obs, [], info
+
+
 def build(cfg, values=None):
+    if cfg['variant'] == 'blade1d':
+        return build_blade(cfg, values)
     model, m, n, variant = cfg['model'], cfg['m'], cfg['n'], cfg['variant']
     s = cfg.get('s', 2)
     atom_mode = 'exact' if variant == 'rigid' else 'atom'
@@ -127,8 +174,10 @@ def configs(tier, seed):
         out.append({'model': model, 'm': 3, 'n': 3, 'variant': 'rigid', 'sub': True, 'group': 'total-mass-subinterval:%s' % model})
         if not quick:
             out.append({'model': model, 'm': 5, 'n': 4, 'variant': 'rigid', 'sub': True, 'group': 'total-mass-subinterval:%s' % model})
+    out.append({'model': 'bay', 'm': 2, 'n': 2, 'variant': 'blade1d', 'group': 'kM:bladestiff1d-flange'})
+    out.append({'model': 'bay', 'm': 1, 'n': 3, 'variant': 'blade1d', 'group': 'kM:bladestiff1d-flange'})
     out[0]['canary'] = True
-    out[-1]['canary'] = True
+    out[-3]['canary'] = True
     return out
 
 
@@ -143,12 +192,14 @@ def main():
         run.encoded(rel, 'fkM')
         run.encoded(rel, 'fkMy1y2')
     run.encoded('compmech/panel/_panel.py', 'Panel.calc_kM')
+    run.encoded('compmech/stiffener/models/bladestiff1d_clt_donnell_bardell.pyx', 'fkMf')
+    run.encoded('compmech/stiffener/bladestiff1d.py', 'BladeStiff1D.calc_kM, _rebuild')
     run.encoded('compmech/sparse.py', 'finalize_symmetric_matrix, make_symmetric')
     cf = configs(run.tier, run.seed)
     run.bounds = {'series_orders_(m,n)': sorted({(c['m'], c['n']) for c in cf}), 'configurations': len(cf), 'variants': sorted({c['variant'] for c in cf})}
     run.assume('a, b, r > 0', 'integral tables = exact Bardell integrals (C10)', 'mid-plane at z = +offset from the reference surface (read_stack convention, decided by C01)',
                'positive definiteness and frequency invariance are corollaries of the energy form (not queries)')
-    run.outside = ['orders above the bound', 'stiffener flange mass kernels (C13)', 'floating point']
+    run.outside = ['orders above the bound', 'BladeStiff1D with a base (the base is a Panel, decided above; BladeStiff1D never stores hb)', 'BladeStiff2D/TStiff2D are Panels joined by penalty matrices (C12/C13)', 'floating point']
     res = pmap(kprop.job, [(__name__, c) for c in cf])
     kprop.handle(run, res, build, 'entries differ from the kinetic-energy Hessian')
     tv = {}
